@@ -1,5 +1,6 @@
 (* C01 correspondence cases: what the harness' assembler and duke answered, compared with the model *)
-From FB Require Export C01.Model C01.Pool C01.Resolve C01.Attr Base.Run.
+From Coq Require Export Uint63.
+From FB Require Export C01.Model C01.Pool C01.Resolve C01.Attr C01.ClassFile C01.Mutf8 Base.Run.
 
 Definition on_eqb (a b : option nat) : bool := opt_eqb Nat.eqb a b.
 
@@ -54,6 +55,112 @@ Definition bytes_eqb (a b : bytes) : bool := list_eqb N.eqb a b.
 Definition known_ctx (ctx : N) : list str :=
   match ctx with 0 => known_class | 1 => known_field | 2 => known_method | 3 => known_code | _ => known_record end.
 
+
+(* ---------------------------------------------------------------------------------------------- *)
+(* whole class files.  The bytes of a case are packed seven to a primitive 63-bit integer
+   (i = count + 8 * (b0 + 256 * b1 + …)): coqc reads one such literal in the time of one numeral. *)
+Definition int_N (i : int) : N := Z.to_N (Uint63.to_Z i).
+Fixpoint int_bytes_from (k : nat) (i : int) : list N :=
+  match k with O => [] | S k' => int_N (Uint63.land i 255) :: int_bytes_from k' (Uint63.lsr i 8) end.
+Definition int_bytes (i : int) : list N := int_bytes_from (N.to_nat (int_N (Uint63.land i 7))) (Uint63.lsr i 3).
+Definition pb (l : list int) : bytes := flat_map int_bytes l.
+Arguments pb l%uint63.
+
+(* abbreviations used by the harness' printer *)
+Definition U (s : str) : val := VC (VUtf8 s).
+Definition K (s : str) : val := VC (VClass s).
+
+Fixpoint val_eqb (a b : val) : bool :=
+  match a, b with
+  | VN x, VN y => N.eqb x y
+  | VC x, VC y => cval_eqb x y
+  | VO x, VO y => opt_eqb cval_eqb x y
+  | VIx i x, VIx j y => N.eqb i j && cval_eqb x y
+  | VB x, VB y => bytes_eqb x y
+  | VS x, VS y => str_eqb x y
+  | VPc k x, VPc k' y => N.eqb k k' && N.eqb x y
+  | VRange x l, VRange y l' => N.eqb x y && N.eqb l l'
+  | VAt x, VAt y => on_eqb x y
+  | VSpan x x', VSpan y y' => on_eqb x y && on_eqb x' y'
+  | VSeq l, VSeq l' | VList l, VList l' =>
+    (fix go (l l' : list val) : bool :=
+       match l, l' with
+       | [], [] => true
+       | x :: r, y :: r' => val_eqb x y && go r r'
+       | _, _ => false
+       end) l l'
+  | VTag t x, VTag t' y => N.eqb t t' && val_eqb x y
+  | VAttr n x, VAttr n' y => str_eqb n n' && val_eqb x y
+  | _, _ => false
+  end.
+
+(* equal up to order (lists the harness can only give sorted: duke's tree is read through the facts
+   of fbh::classfile, which sort unknown attributes, line numbers and local variables) *)
+Fixpoint remove_first {A} (eqb : A -> A -> bool) (x : A) (l : list A) : option (list A) :=
+  match l with
+  | [] => None
+  | y :: r => if eqb x y then Some r else match remove_first eqb x r with Some r' => Some (y :: r') | None => None end
+  end.
+Fixpoint perm_eqb {A} (eqb : A -> A -> bool) (a b : list A) : bool :=
+  match a with
+  | [] => match b with [] => true | _ => false end
+  | x :: a' => match remove_first eqb x b with Some b' => perm_eqb eqb a' b' | None => false end
+  end.
+
+Definition unknown_eqb (a b : list (str * bytes)) : bool := perm_eqb (pair_eqb str_eqb bytes_eqb) a b.
+(* an attribute that is present but holds nothing compares as absent where the tree only has a Vec *)
+Definition vec_slots : list str :=
+  [a_RuntimeVisibleAnnotations; a_RuntimeInvisibleAnnotations; a_RuntimeVisibleTypeAnnotations; a_RuntimeInvisibleTypeAnnotations].
+Definition empty_vec (nv : str * val) : bool :=
+  mem_str (fst nv) vec_slots && match snd nv with VList [] => true | _ => false end.
+(* the attribute state of a record component, inside the Record attribute's value: slots and unknown
+   attributes up to order *)
+Definition state_eqb (slot_eq : list (str * val) -> list (str * val) -> bool) (a b : val) : bool :=
+  match a, b with
+  | VSeq [VList sa; VList ua], VSeq [VList sb; VList ub] =>
+    let sl := fun l => flat_map (fun x => match x with VAttr n v => [(n, v)] | _ => [] end) l in
+    slot_eq (sl sa) (sl sb) && perm_eqb val_eqb ua ub
+  | _, _ => false
+  end.
+Definition slot_val_eqb (slot_eq : list (str * val) -> list (str * val) -> bool) (n : str) (a b : val) : bool :=
+  if str_eqb n a_Record then
+    match a, b with
+    | VList ca, VList cb =>
+      list_eqb (fun x y => match x, y with
+                           | VSeq [n1; d1; s1], VSeq [n2; d2; s2] => val_eqb n1 n2 && val_eqb d1 d2 && state_eqb slot_eq s1 s2
+                           | _, _ => false end) ca cb
+    | _, _ => false
+    end
+  else val_eqb a b.
+Definition slots_eqb_with (inner : list (str * val) -> list (str * val) -> bool) (a b : list (str * val)) : bool :=
+  let a' := filter (fun nv => negb (empty_vec nv)) a in
+  let b' := filter (fun nv => negb (empty_vec nv)) b in
+  Nat.eqb (length a') (length b')
+  && forallb (fun nv => match slot_get (fst nv) b' with Some v => slot_val_eqb inner (fst nv) (snd nv) v | None => false end) a'.
+Definition slots_eqb (a b : list (str * val)) : bool :=
+  slots_eqb_with (slots_eqb_with (fun _ _ => false)) a b.
+
+Definition insn_entry_eqb (x y : bool * option nat * xinsn) : bool :=
+  Bool.eqb (fst (fst x)) (fst (fst y)) && on_eqb (snd (fst x)) (snd (fst y)) && xinsn_eqb (snd x) (snd y).
+Definition code_eqb (a b : code_desc) : bool :=
+  N.eqb (k_max_stack a) (k_max_stack b) && N.eqb (k_max_locals a) (k_max_locals b)
+  && list_eqb insn_entry_eqb (k_insns a) (k_insns b) && Bool.eqb (k_last a) (k_last b)
+  && list_eqb val_eqb (k_exc a) (k_exc b)
+  && perm_eqb val_eqb (k_lines a) (k_lines b) && perm_eqb val_eqb (k_lvs a) (k_lvs b)
+  && list_eqb val_eqb (k_frames a) (k_frames b)
+  && list_eqb val_eqb (k_vta a) (k_vta b) && list_eqb val_eqb (k_ita a) (k_ita b)
+  && unknown_eqb (k_unknown a) (k_unknown b).
+Definition member_eqb (a b : member_desc) : bool :=
+  N.eqb (md_access a) (md_access b) && str_eqb (md_name a) (md_name b) && str_eqb (md_desc a) (md_desc b)
+  && slots_eqb (md_slots a) (md_slots b) && unknown_eqb (md_unknown a) (md_unknown b)
+  && opt_eqb code_eqb (md_code a) (md_code b).
+Definition class_eqb (a b : class_desc) : bool :=
+  N.eqb (cd_minor a) (cd_minor b) && N.eqb (cd_major a) (cd_major b) && N.eqb (cd_access a) (cd_access b)
+  && str_eqb (cd_this a) (cd_this b) && opt_eqb str_eqb (cd_super a) (cd_super b)
+  && list_eqb str_eqb (cd_interfaces a) (cd_interfaces b)
+  && list_eqb member_eqb (cd_fields a) (cd_fields b) && list_eqb member_eqb (cd_methods a) (cd_methods b)
+  && slots_eqb (cd_slots a) (cd_slots b) && unknown_eqb (cd_unknown a) (cd_unknown b).
+
 Inductive case :=
 (* the harness' assembler encoded [body] with the per-instruction choices [ch]: the model's general
    encoder must produce the same code array *)
@@ -69,7 +176,9 @@ Inductive case :=
 (* an attribute list (names, payloads) of a context in file order, and what duke reported as unknown attributes *)
 (* a class file with this magic, minor and major version: did duke get past the header *)
 | CHeader (mg minor major : N) (accepted : bool)
-| CUnknown (ctx : N) (attrs : list (str * bytes)) (reported : list (str * bytes)).
+| CUnknown (ctx : N) (attrs : list (str * bytes)) (reported : list (str * bytes))
+(* a whole class file (packed bytes) and the tree duke::read_class built from it, as a class description *)
+| CFile (file : bytes) (r : res class_desc).
 
 Definition check (c : case) : bool :=
   match c with
@@ -80,4 +189,5 @@ Definition check (c : case) : bool :=
   | CHeader mg minor major accepted => Bool.eqb (header_ok mg minor major) accepted
   | CUnknown ctx attrs reported =>
       list_eqb (pair_eqb str_eqb bytes_eqb) (unknown_of (known_ctx ctx) attrs) reported
+  | CFile file r => res_eqb class_eqb (read_class true mutf8_dec file) r
   end.
